@@ -9,15 +9,36 @@ open TxV TxV.Proto TxV.Encoders TxV.Coding
     `cfg comp=mux|muxc n=3 prio=1 dflt=1`  `in s=5 d=1,2,3 df=7` → `out=1`  (`raise ValueError` for n=0 without default)
     `cfg comp=enc|penc w=4`         `in x=4`                 → `o=2 n=0`
     `cfg comp=dec|pdec w=4`         `in x=2 n=0`             → `o=4`
-    `cfg comp=genc|gdec w=4`        `in x=5`                 → `o=7` -/
+    `cfg comp=genc|gdec w=4`        `in x=5`                 → `o=7`
+    typed helpers (the returned Value observed wider than its shape, plus its width / signedness):
+    `cfg comp=muxz prio=1 shp=u5,s4,s3 dshp=u2|-`  `in s=6 d=9,-3,2 df=1` → `out=-3 w=6 sg=1`   (one_hot_mux)
+    `cfg comp=muxcz prio=1 shp=s4,s4 dshp=s4|-`    `in s=2 d=1,-3 df=1`   → `out=-3 w=4 sg=1`   (OneHotMux(signed(4)))
+    `cfg comp=lsb w=5`  `in x=12` → `o=4 w=5 sg=0`      (extract_lowest_set_bit)
+    `cfg comp=ctz w=5`  `in x=12` → `o=2 w=3 sg=0`      (count_trailing_zeros) -/
 structure DState where
   comp : String
   w : Nat
   k : Nat
   prio : Bool
   dflt : Bool
+  shps : List Shp := []
+  dshp : Option Shp := none
 
-def comps : List String := ["mpe", "ring", "ssn", "mux", "muxc", "enc", "penc", "dec", "pdec", "genc", "gdec"]
+def intList (s : String) : List Int :=
+  if s == "" || s == "-" then [] else (s.splitOn ",").filterMap String.toInt?
+
+/-- `s4` ↦ signed(4), `u5` ↦ unsigned(5) -/
+def shp? (s : String) : Option Shp :=
+  match s.toList with
+  | 's' :: r => (String.ofList r).toNat?.map (fun w => { width := w, signed := true })
+  | 'u' :: r => (String.ofList r).toNat?.map (fun w => { width := w, signed := false })
+  | _ => none
+
+def shpList (s : String) : List Shp :=
+  if s == "" || s == "-" then [] else (s.splitOn ",").filterMap shp?
+
+def comps : List String :=
+  ["mpe", "ring", "ssn", "mux", "muxc", "enc", "penc", "dec", "pdec", "genc", "gdec", "muxz", "muxcz", "lsb", "ctz"]
 
 def showPair (r : List Nat × List Bool) : String := s!"out={showList r.1} val={natOf r.2}"
 
@@ -29,7 +50,8 @@ def stepLine (s : DState) (line : String) : DState × String :=
     | some c =>
       if comps.contains c then
         ({ comp := c, w := (nat? t "w").getD ((nat? t "n").getD 0), k := natD t "k" 1,
-           prio := flag t "prio", dflt := flag t "dflt" }, "ok")
+           prio := flag t "prio", dflt := flag t "dflt",
+           shps := shpList ((kv? t "shp").getD "-"), dshp := (kv? t "dshp").bind shp? }, "ok")
       else ({ s with comp := "" }, "bad-op")
     | none => ({ s with comp := "" }, "bad-op")
   | some "in" =>
@@ -53,6 +75,20 @@ def stepLine (s : DState) (line : String) : DState × String :=
           let df := if s.dflt then nat? t "df" else none
           if s.dflt && df.isNone then "bad-op"
           else s!"out={oneHotMux s.prio (bitsOf s.w (natD t "s" 0)) d df}"
+      | "muxz" | "muxcz" =>
+        let d := intList ((kv? t "d").getD "-")
+        let df := ((kv? t "df").bind String.toInt?)
+        if d.length != s.shps.length then "bad-op"
+        else if s.shps.isEmpty && s.dshp.isNone then "raise ValueError"
+        else
+          match s.dshp, df with
+          | some _, none => "bad-op"
+          | dshp, df =>
+            let dflt := dshp.bind (fun sh => df.map (fun v => (sh, v)))
+            let r := oneHotMuxZ s.prio (bitsOf s.shps.length (natD t "s" 0)) (s.shps.zip d) dflt
+            s!"out={r.2} w={r.1.width} sg={showBool r.1.signed}"
+      | "lsb" => s!"o={natOf (lowestSet (bitsOf s.w x))} w={s.w} sg=0"
+      | "ctz" => s!"o={ctz (bitsOf s.w x)} w={clog2 (s.w + 1)} sg=0"
       | "enc" => let r := encoder s.w x; s!"o={r.1} n={showBool r.2}"
       | "penc" => let r := prioEncoder (bitsOf s.w x); s!"o={r.1} n={showBool r.2}"
       | "dec" | "pdec" => s!"o={decoder s.w x (flag t "n")}"
